@@ -20,7 +20,7 @@ func init() {
 		Doc: "scanner progress: every cycle of the scanner's CFG contains an increment of the position", Run: lex2})
 	register(&Rule{ID: "LEX-3", Props: []string{"C08"}, Floor: 1,
 		Doc: "consume => emit: no iteration of the main loop advances the position without emitting a token, except in the blank cases", Run: lex3})
-	register(&Rule{ID: "LEX-4", Props: []string{"C08"}, Floor: 10,
+	register(&Rule{ID: "LEX-4", Props: []string{"C08"}, Floor: 6,
 		Doc: "faithful tokens: the position given to an emit is the position at the start of the iteration; the text is usage[start:pos] (or a suffix of it) or a constant; one-byte tokens carry the character that selected the case", Run: lex4})
 	register(&Rule{ID: "LEX-5", Props: []string{"C03", "C08"}, Floor: 3,
 		Doc: "error positions: every ParseError takes Pos from the scanner position, a token's Pos or len(spec), and Input from the string those positions refer to", Run: lex5})
@@ -264,6 +264,19 @@ func (m *lexModel) storeIn(b *ssa.BasicBlock, from, to int) int {
 	return -1
 }
 
+// sameVersion: two loads of pos in one block with no store between them.
+func (m *lexModel) sameVersion(a, b ssa.Value) bool {
+	ia, ib := a.(ssa.Instruction), b.(ssa.Instruction)
+	if ia.Block() != ib.Block() {
+		return false
+	}
+	lo, hi := ir.IndexIn(ia), ir.IndexIn(ib)
+	if lo > hi {
+		lo, hi = hi, lo
+	}
+	return m.storeIn(ia.Block(), lo, hi) < 0
+}
+
 func (m *lexModel) kill(b *ssa.BasicBlock) bool { return m.storeIn(b, 0, len(b.Instrs)) >= 0 }
 
 // guardEdges: CFG edges on which the current content of pos is known < len,
@@ -422,6 +435,13 @@ func lex1(c *Ctx) {
 		}
 		key := fmt.Sprintf("%s:slice@%s", Q(fn), relLine(c, fn, sl.Pos()))
 		if m.isUsage(sl.X) {
+			// usage[pos:pos+1]: the byte at a guarded position
+			if bo, isBo := sl.High.(*ssa.BinOp); isBo && bo.Op == token.ADD && sl.Low != nil && m.isPosLoad(sl.Low) && m.isPosLoad(bo.X) {
+				if one, isC := ir.ConstInt(bo.Y); isC && one == 1 && m.sameVersion(sl.Low, bo.X) {
+					c.Check(m.ltAt(sl.Low, unguarded) && m.ltAt(bo.X, unguarded), key, sl.Pos(), "usage[p:p+1] with p known < len", "one-byte slice at a position not known to be < len")
+					return
+				}
+			}
 			okHi := sl.High != nil && m.isPosLoad(sl.High)
 			okLo := sl.Low != nil && m.isPosLoad(sl.Low) && sl.Low.(ssa.Instruction).Block().Dominates(sl.Block())
 			c.Check(okHi && okLo, key, sl.Pos(), "usage[a:b] with a an earlier and b a later content of pos (0 <= a <= b <= len)", "slice bounds are not two contents of the position cell in order")
@@ -727,7 +747,19 @@ func lex4(c *Ctx) {
 					return true
 				case *ssa.Slice:
 					if m.isUsage(x.X) {
-						return start != nil && x.Low == start && x.High != nil && m.isPosLoad(x.High)
+						if start != nil && x.Low == start && x.High != nil && m.isPosLoad(x.High) {
+							return true
+						}
+						// the single byte at the token's own position
+						if bo, isBo := x.High.(*ssa.BinOp); isBo && bo.Op == token.ADD && x.Low != nil && m.isPosLoad(x.Low) && m.isPosLoad(bo.X) {
+							if one, isC := ir.ConstInt(bo.Y); isC && one == 1 && m.sameVersion(x.Low, bo.X) {
+								if start != nil {
+									return x.Low == start || (iterationStart(x.Low) && iterationStart(start))
+								}
+								return iterationStart(x.Low)
+							}
+						}
+						return false
 					}
 					return check(x.X)
 				}
@@ -760,12 +792,65 @@ func kindsOf(v ssa.Value) []string {
 			for _, e := range x.Edges {
 				walk(e)
 			}
+		case *ssa.Lookup:
+			ks := mapTableValues(x.X)
+			if len(ks) == 0 {
+				out = append(out, "?")
+			}
+			out = append(out, ks...)
 		default:
 			out = append(out, "?")
 		}
 	}
 	walk(v)
 	sort.Strings(out)
+	return out
+}
+
+// mapTableValues: m is the load of a package-level map that the package initialiser fills with
+// constant string values; returns those values.
+func mapTableValues(m ssa.Value) []string {
+	ld, ok := m.(*ssa.UnOp)
+	if !ok {
+		return nil
+	}
+	g, ok := ld.X.(*ssa.Global)
+	if !ok {
+		return nil
+	}
+	init, _ := g.Pkg.Members["init"].(*ssa.Function)
+	if init == nil {
+		return nil
+	}
+	var out []string
+	bad := false
+	ir.Instrs(init, func(in ssa.Instruction) {
+		mu, ok := in.(*ssa.MapUpdate)
+		if !ok {
+			return
+		}
+		mk, isMk := mu.Map.(*ssa.MakeMap)
+		if !isMk {
+			return
+		}
+		stored := false
+		for _, u := range *mk.Referrers() {
+			if st, isSt := u.(*ssa.Store); isSt && st.Addr == ssa.Value(g) {
+				stored = true
+			}
+		}
+		if !stored {
+			return
+		}
+		if sv, isS := ir.ConstString(mu.Value); isS {
+			out = append(out, sv)
+		} else {
+			bad = true
+		}
+	})
+	if bad {
+		return nil
+	}
 	return out
 }
 
